@@ -7,6 +7,9 @@ use crate::pgen::*;
 use crate::report::Rng;
 
 pub const KINDS: [&str; 6] = ["UnexpectedEof", "ConnectionReset", "TimedOut", "BrokenPipe", "WouldBlock", "Other"];
+/// kinds for READ faults (a synchronous `io::Write::write_all` retries Interrupted by contract, so the
+/// write side keeps to KINDS)
+pub const READ_KINDS: [&str; 12] = ["UnexpectedEof", "ConnectionReset", "TimedOut", "BrokenPipe", "WouldBlock", "Other", "Interrupted", "PermissionDenied", "ConnectionRefused", "InvalidInput", "NotFound", "OutOfMemory"];
 
 pub fn gen(stream: &str, tier: &str, seed: u64) -> Vec<String> {
     let mut rng = Rng::new(seed ^ 0xC0FFEE);
@@ -119,6 +122,25 @@ pub fn gen(stream: &str, tier: &str, seed: u64) -> Vec<String> {
                         for suf in ["", "+", "x", "g", "g/f", "g/+", "g/#", "/x", "g/", "#", "+/x", "g/a/b"] {
                             out.push(format!("{} {}", op, hex(format!("{}{}", pre, suf).as_bytes())));
                         }
+                    }
+                }
+            }
+            // TOKEN-level bounded-exhaustive: every sequence of up to 5 (thorough: 6) levels drawn from the
+            // tokens the rules speak about, joined by '/': nests and repeats the multi-character prefixes
+            // (`$share/g/$share/x`, `$share/g/$SYS/x`, `$SYS/$share/…`) that no character-level
+            // enumeration of this length reaches
+            {
+                let toks = ["$share", "$SYS", "+", "#", "", "a", "$", "g"];
+                let maxl = if thorough { 6 } else { 5 };
+                for len in 1..=maxl {
+                    let total = (toks.len() as u64).pow(len as u32);
+                    for mut k in 0..total {
+                        let mut parts: Vec<&str> = Vec::new();
+                        for _ in 0..len {
+                            parts.push(toks[(k % toks.len() as u64) as usize]);
+                            k /= toks.len() as u64;
+                        }
+                        out.push(format!("{} {}", op, hex_or_dash(parts.join("/").as_bytes())));
                     }
                 }
             }
@@ -263,6 +285,9 @@ pub fn gen(stream: &str, tier: &str, seed: u64) -> Vec<String> {
                 let p = gen_v3(&mut rng, i % V3_TYPES, sz);
                 out.push(format!("enc v3 {}", crate::v3text::show(&p)));
             }
+            for p in crate::pgen::sweep_v3(thorough) {
+                out.push(format!("enc v3 {}", crate::v3text::show(&p)));
+            }
             // just outside the valid domain
             for extra in [
                 "enc v3 puback 0",
@@ -321,14 +346,19 @@ pub fn gen(stream: &str, tier: &str, seed: u64) -> Vec<String> {
                         }
                         "v3poll" => {
                             out.push(format!("poll v3 {} {} eof", h, gen_sched(&mut rng, v.len())));
-                            out.push(format!("poll v3 {} {} err:{}", h, gen_sched(&mut rng, v.len()), rng.pick(&KINDS)));
+                            out.push(format!("poll v3 {} {} err:{}", h, gen_sched(&mut rng, v.len()), rng.pick(&READ_KINDS)));
                         }
                         _ => {
                             if v.len() <= 300 {
                                 let k = rng.below(v.len() as u64 + 1) as usize;
-                                let kind = rng.pick(&KINDS);
+                                let kind = rng.pick(&READ_KINDS);
                                 out.push(format!("deca v3 {} err:{}", hex_or_dash(&v[..k]), kind));
                                 out.push(format!("poll v3 {} {} err:{}", hex_or_dash(&v[..k]), gen_sched(&mut rng, k), kind));
+                                // the same cut as a ONE-SHOT fault: the rest of the bytes would follow
+                                let kind = rng.pick(&READ_KINDS);
+                                let rest = if k < v.len() { format!("+{}", hex(&v[k..])) } else { String::new() };
+                                out.push(format!("deca v3 {} err:{}{}", hex_or_dash(&v[..k]), kind, rest));
+                                out.push(format!("poll v3 {} {} err:{}{}", hex_or_dash(&v[..k]), gen_sched(&mut rng, k), kind, rest));
                                 out.push(format!("deca v3 {} eof", hex_or_dash(&v[..k])));
                                 out.push(format!("dec v3 {}", hex_or_dash(&v[..k])));
                             }
@@ -376,6 +406,9 @@ pub fn gen(stream: &str, tier: &str, seed: u64) -> Vec<String> {
                 let sz = Sizes { big: i % 50 == 0 };
                 let pmode = [0u8, 0, 0, 1, 2, 3, 4][i % 7];
                 let p = gen_v5(&mut rng, i % V5_TYPES, sz, pmode, i / 7);
+                out.push(format!("enc v5 {}", crate::v5text::show(&p)));
+            }
+            for p in crate::pgen::sweep_v5(thorough) {
                 out.push(format!("enc v5 {}", crate::v5text::show(&p)));
             }
             for extra in [
@@ -437,14 +470,19 @@ pub fn gen(stream: &str, tier: &str, seed: u64) -> Vec<String> {
                         }
                         "v5poll" => {
                             out.push(format!("poll v5 {} {} eof", h, gen_sched(&mut rng, v.len())));
-                            out.push(format!("poll v5 {} {} err:{}", h, gen_sched(&mut rng, v.len()), rng.pick(&KINDS)));
+                            out.push(format!("poll v5 {} {} err:{}", h, gen_sched(&mut rng, v.len()), rng.pick(&READ_KINDS)));
                         }
                         _ => {
                             if v.len() <= 300 {
                                 let k = rng.below(v.len() as u64 + 1) as usize;
-                                let kind = rng.pick(&KINDS);
+                                let kind = rng.pick(&READ_KINDS);
                                 out.push(format!("deca v5 {} err:{}", hex_or_dash(&v[..k]), kind));
                                 out.push(format!("poll v5 {} {} err:{}", hex_or_dash(&v[..k]), gen_sched(&mut rng, k), kind));
+                                // the same cut as a ONE-SHOT fault: the rest of the bytes would follow
+                                let kind = rng.pick(&READ_KINDS);
+                                let rest = if k < v.len() { format!("+{}", hex(&v[k..])) } else { String::new() };
+                                out.push(format!("deca v5 {} err:{}{}", hex_or_dash(&v[..k]), kind, rest));
+                                out.push(format!("poll v5 {} {} err:{}{}", hex_or_dash(&v[..k]), gen_sched(&mut rng, k), kind, rest));
                                 out.push(format!("deca v5 {} eof", hex_or_dash(&v[..k])));
                                 out.push(format!("dec v5 {}", hex_or_dash(&v[..k])));
                             }
@@ -485,6 +523,7 @@ pub fn gen(stream: &str, tier: &str, seed: u64) -> Vec<String> {
             }
         }
         "v5short" => {
+            out.extend(tiny_frames("v5", thorough));
             out.push("dec v5 -".into());
             out.push("poll v5 - - eof".into());
             for a in 0..=255u8 {
@@ -674,6 +713,14 @@ pub fn gen(stream: &str, tier: &str, seed: u64) -> Vec<String> {
         "v3cat" => out.extend(crate::catalogue::stream::<crate::fam::V3>(tier, seed)),
         "v5cat" => out.extend(crate::catalogue::stream::<crate::fam::V5>(tier, seed)),
         "enca" => {
+            for (k, p) in crate::pgen::sweep_v3(thorough).iter().enumerate() {
+                let sink = ["-", "g", "a1,a7,p,a4000", "g,a3,a200,p,a5", "a130,a2,a1"][k % 5];
+                out.push(format!("enca v3 {} {}", sink, crate::v3text::show(p)));
+            }
+            for (k, p) in crate::pgen::sweep_v5(thorough).iter().enumerate() {
+                let sink = ["-", "g", "a1,a7,p,a4000", "g,a3,a200,p,a5", "a130,a2,a1"][k % 5];
+                out.push(format!("enca v5 {} {}", sink, crate::v5text::show(p)));
+            }
             let n = if thorough { 20_000 } else { 2_500 };
             for i in 0..n {
                 let sz = Sizes { big: false };
@@ -722,6 +769,7 @@ pub fn gen(stream: &str, tier: &str, seed: u64) -> Vec<String> {
             }
         }
         "v3short" => {
+            out.extend(tiny_frames("v3", thorough));
             // every string of length <= 2, every 2-byte header followed by short bodies
             out.push("dec v3 -".into());
             out.push("poll v3 - - eof".into());
@@ -1097,6 +1145,36 @@ pub fn short_poll_schedules(fam: &str) -> Vec<String> {
     for a in 0..=255u8 {
         for b in (0..=255u8).step_by(5) {
             emit(&[a, b]);
+        }
+    }
+    out
+}
+
+/// TINY frames, exhaustively over a small byte alphabet: every plausible first byte × remaining length
+/// 0..=4 × every body over {00 01 02 03 10 7f 80 92 ff} — all the doubly and triply malformed short packets
+/// (zero pid AND bad reason code, bad flags AND bad length, …) that single substitutions never reach.
+pub fn tiny_frames(fam: &str, thorough: bool) -> Vec<String> {
+    let mut out = Vec::new();
+    let alpha: &[u8] = if thorough { &[0x00, 0x01, 0x02, 0x03, 0x10, 0x7f, 0x80, 0x92, 0xff] } else { &[0x00, 0x01, 0x03, 0x10, 0x80, 0x92, 0xff] };
+    let mut firsts: Vec<u8> = Vec::new();
+    for t in 0..16u8 {
+        for fl in [0u8, 2, 1, 0x0b] {
+            firsts.push((t << 4) | fl);
+        }
+    }
+    for first in firsts {
+        for rl in 0..=4usize {
+            let total = (alpha.len() as u64).pow(rl as u32);
+            for mut k in 0..total {
+                let mut f = vec![first, rl as u8];
+                for _ in 0..rl {
+                    f.push(alpha[(k % alpha.len() as u64) as usize]);
+                    k /= alpha.len() as u64;
+                }
+                let h = hex(&f);
+                out.push(format!("dec {} {}", fam, h));
+                out.push(format!("poll {} {} - eof", fam, h));
+            }
         }
     }
     out
